@@ -109,6 +109,8 @@ def run(ctx):
     ctx.rule("R2.single-writer", "file creating/writing/renaming primitives in cbh_storage::local occur only inside write_atomic", floor=1)
     ctx.rule("R2.publish-through", "put and put_overwrite call write_atomic exactly once on their success path", floor=2)
     ctx.rule("R3.temp-beside-target", "rename source and File::create path derive from temp_path_for(target); temp_path_for joins onto target.parent()", floor=3)
+    ctx.rule("R3.temp-unique", "the temp file name is unique per write within and across processes: it derives from a fetch_add on a static atomic counter and from process::id (two writers of one key must never share a temp file)", floor=1)
+    ctx.rule("R2.writers-never-unlink", "put/put_overwrite never remove the object file (remove_file is reachable only inside write_atomic, on the temp path)", floor=2)
     ctx.rule("R3.reserved-prefix", "the temp file name starts with TEMP_PREFIX; is_temp_file_name tests the same constant; list() consults it before producing a key", floor=3, shape_dependent=True)
     ctx.rule("R4.write-once", "in put, write_atomic is reachable only through Ok(false) of try_exists; Ok(true) returns ObjectAlreadyExists; put_overwrite has no existence check", floor=3)
     ctx.rule("R5.validate-first", "key_path dominates every filesystem call of put/put_overwrite/get/delete, fs calls only on its Ok arm; key_path/validate_key reject non-plain segments", floor=6)
@@ -242,6 +244,16 @@ def run(ctx):
         ok = len(calls) == 1 and pc is not None and pc[1] == 1 and calls[0] in aw_b
         ctx.ob("R2.publish-through", m, ok, b.loc(), f"write_atomic call sites={len(calls)}, per path {pc}, awaited={calls and calls[0] in aw_b}")
 
+    for m in ("put", "put_overwrite"):
+        b = prog.one(f"<cbh_storage::local::LocalStorage as cbh_storage::port::Storage>::{m}::{{closure#0}}")
+        if b is None:
+            continue
+        rm = [k for bb, t, k in fs_calls(b) if k in ("tokio::fs::remove_file", "std::fs::remove_file", "tokio::fs::remove_dir_all", "std::fs::remove_dir_all")]
+        # transitively: calls to other Storage methods of LocalStorage that delete
+        dels = [callee_key(t["callee"]) for bb, t in b.calls() if callee_key(t["callee"]).endswith("Storage>::delete") or callee_key(t["callee"]).endswith("::delete")]
+        ctx.ob("R2.writers-never-unlink", m, not rm and not dels, b.loc(),
+               f"remove_file calls {rm or 'none'}, delete() calls {dels or 'none'} in {m} (an interrupted write must leave what the key held before)")
+
     # ---- R3
     tp = prog.one("local::temp_path_for")
     if tp is None:
@@ -293,6 +305,15 @@ def run(ctx):
             ctx.ob("R3.temp-beside-target", "temp_path_for.join-parent", ok, tp.loc(t["span"]), det)
             # name begins with TEMP_PREFIX
             s1 = Slice(tp).run(t["args"][1])
+            fa = [ct for k, _, ct in s1["calls"] if k.endswith("::fetch_add") and "atomic" in k]
+            uniq = False
+            for ct in fa:
+                c0 = resolve_const(tp, ct["args"][0])
+                if c0 is not None and "alloc" in c0.get("text", "") and "Atomic" in c0.get("ty", ""):
+                    uniq = True
+            pid = any(k.endswith("process::id") for k, _, _ in s1["calls"])
+            ctx.ob("R3.temp-unique", "temp_path_for.name", uniq and pid, tp.loc(t["span"]),
+                   f"name derives from fetch_add on a static atomic: {uniq}; from process::id(): {pid}")
             fmt = [ct for k, _, ct in s1["calls"] if k.endswith("fmt::Arguments::new") or k.endswith("fmt::Arguments::new_v1")
                    or "fmt::Arguments" in k]
             prom_names = {}
